@@ -218,6 +218,11 @@ class World:
     def havoc_like(self, I, old, base):
         if isinstance(old, SV):
             return I.fresh(old.typ, base)
+        if isinstance(old, SObj):
+            # the callee may mutate the object in place: every field gets a fresh value, the identity is kept
+            for f, val in list(I.heap[old.oid]['fields'].items()):
+                I.setfield(old, f, self.havoc_like(I, val, f'{base}_{f}'))
+            return old
         raise Undecided(f'havoc of {old!r}')
 
 
@@ -327,6 +332,15 @@ def verify_function(world, c, setup=None, body_of=None, hooks=None, extra_check=
                 extra_check(I, scope, outcome)
             return
         scope.set('result', outcome[1])
+        for label, expr in c.lemmas:
+            try:
+                t = I.spec(expr, scope)
+            except Undecided as e:
+                if 'unknown name' in str(e) or 'None operand' in str(e):
+                    continue          # the lemma talks about locals this path never defined (or that are None here)
+                raise
+            path.oblige(f'{c.name}::lemma::{label}', t, kind='lemma', meta={'expr': expr})
+            path.assume(t)
         for k, e in enumerate(c.ensures):
             label, expr = e if isinstance(e, tuple) else (str(k), e)
             path.oblige(f'{c.name}::post::{label}', I.spec(expr, scope), kind='post', meta={'expr': expr})
